@@ -287,7 +287,7 @@ package vm
 //@   ensures m.Program == old(m.Program) && m.UnresolvedResources == old(m.UnresolvedResources) // C08: the (possibly cached, shared) program is never written
 //@   modifies Machine.resolveCalled, Machine.Resources, map[int]string, map[machine.Address]string
 //@   property C12 C02 C01
-//@   alsofor C08
+//@   alsofor C08 C10
 // the needed-balance table of a compiled program maps account resources to asset-bearing resources (assumed for C12)
 //@ func (*vm.Machine).ResolveBalances
 //@   requires m != nil && pendingRegistered(m)
@@ -297,9 +297,9 @@ package vm
 //@   ensures err == nil ==> forall i8 in 0..len(m.Resources) :: !pendingBal(m.Resources[i8]) // C12
 // C01: the state Run starts from: every resource a machine value, balance tables distinct, non-nil and with non-nil entries
 //@   requires resourcesP(m) // C01
-// C02 C10: the balances a script (or a revert) is checked against are read while the request holds its account locks -- a
+// C02 C10 C14 (a preview answers what the real write would: it queues behind the writes in flight like one): the balances a script (or a revert) is checked against are read while the request holds its account locks -- a
 // balance read before the lock is granted is stale by the time the lock is held
-//@   requires in Commander).CreateTransaction, Commander).RevertTransaction, Commander).exec: lockTaken && lockHeld // C02 C10
+//@   requires in Commander).CreateTransaction, Commander).RevertTransaction, Commander).exec: lockTaken && lockHeld // C02 C10 C14
 //@   ensures err == nil ==> noFunding(m.Resources) && wf(m) && balNonNil(m) // C01
 //@   loop 1 invariant len(m.Resources) == old(len(m.Resources)) && m.UnresolvedResourceBalances == old(m.UnresolvedResourceBalances)
 //@   loop 1 invariant forall k7 int :: has(m.UnresolvedResourceBalances, k7) ==> 0 <= k7 && k7 < len(m.Resources) && typeis(m.Resources[k7], "machine.Monetary")
